@@ -299,7 +299,11 @@ func (r *tcpResponseWriter) RemoteAddr() (addr net.Addr) {
 func (r *tcpResponseWriter) WriteMsg(ctx context.Context, req, resp *dns.Msg) (err error) {
 	si := MustServerInfoFromContext(ctx)
 	normalizeTCP(si.Proto, req, resp)
-	r.addTCPKeepAlive(req, resp)
+	if r.addTCPKeepAlive(req, resp) {
+		// The option has been added after the normalization, so make sure
+		// that the response still isn't larger than the protocol supports.
+		truncate(resp, dns.MaxMsgSize)
+	}
 
 	bufPtr := r.respPool.Get()
 	defer func() {
@@ -338,7 +342,8 @@ func (r *tcpResponseWriter) WriteMsg(ctx context.Context, req, resp *dns.Msg) (e
 
 // addTCPKeepAlive adds a ENDS0 TCP keep-alive option to the DNS response
 // as per RFC 7828.  This option specifies the desired idle connection timeout.
-func (r *tcpResponseWriter) addTCPKeepAlive(req, resp *dns.Msg) {
+// added is true if a new option has been added to the response.
+func (r *tcpResponseWriter) addTCPKeepAlive(req, resp *dns.Msg) (added bool) {
 	reqOpt := req.IsEdns0()
 	respOpt := resp.IsEdns0()
 
@@ -347,7 +352,7 @@ func (r *tcpResponseWriter) addTCPKeepAlive(req, resp *dns.Msg) {
 		findOption[*dns.EDNS0_TCP_KEEPALIVE](reqOpt) == nil {
 		// edns-tcp-keepalive can only be added if it's explicitly indicated in
 		// the DNS request that it's supported.
-		return
+		return false
 	}
 
 	keepAliveOpt := findOption[*dns.EDNS0_TCP_KEEPALIVE](respOpt)
@@ -356,6 +361,7 @@ func (r *tcpResponseWriter) addTCPKeepAlive(req, resp *dns.Msg) {
 			Code: dns.EDNS0TCPKEEPALIVE,
 		}
 		respOpt.Option = append(respOpt.Option, keepAliveOpt)
+		added = true
 	}
 
 	// Should be specified in units of 100 milliseconds encoded in network byte
@@ -363,4 +369,6 @@ func (r *tcpResponseWriter) addTCPKeepAlive(req, resp *dns.Msg) {
 	// #nosec G115 -- r.idleTimeout comes from [ConfigDNS.TCPIdleTimeout], which
 	// is validated in [newServerDNS].
 	keepAliveOpt.Timeout = uint16(r.idleTimeout.Milliseconds() / 100)
+
+	return added
 }
